@@ -98,6 +98,53 @@ fn c06_search_real_partial_prefixes() {
     kani::cover!(true);
 }
 
+/// dlt_storage_header (through the hook) on literal junk ++ a literal storage header ++ two symbolic bytes, with
+/// the REAL search: the reported shift is the junk length, the header fields are those behind the junk, and the
+/// remainder is what follows the 16 header bytes. (Near-concrete on purpose: it reaches a verdict in seconds for
+/// any implementation of the resync, where the symbolic-message harnesses below may not.)
+#[kani::proof]
+#[kani::unwind(24)]
+#[kani::stub(std::fmt::format, crate::models::fmt_format_stub)]
+#[kani::stub(core::str::from_utf8, crate::models::from_utf8_stub)]
+#[kani::stub(core::arch::x86_64::__cpuid_count, cpuid_count_stub)]
+#[kani::stub(core::arch::x86_64::__cpuid, cpuid_stub)]
+fn c06_storage_header_behind_literal_junk() {
+    const JUNK: [&[u8]; 4] = [b"\xAA", b"\x00\x01\x02", b"DLT", b"xxDLDL"];
+    let t: [u8; 2] = kani::any();
+    let mut k = 0;
+    while k < JUNK.len() {
+        let j = JUNK[k];
+        let mut buf = [0u8; 24];
+        let mut n = 0;
+        while n < j.len() {
+            buf[n] = j[n];
+            n += 1;
+        }
+        let hdr: [u8; 16] = [0x44, 0x4C, 0x54, 0x01, 0x11, 0x22, 0x33, 0x44 + 0x11, 5, 6, 7, 8, b'E', b'c', b'7', 0];
+        let mut i = 0;
+        while i < 16 {
+            buf[n + i] = hdr[i];
+            i += 1;
+        }
+        buf[n + 16] = t[0];
+        buf[n + 17] = t[1];
+        let input = &buf[..n + 18];
+        let r = dlt_core::parse::verif_hooks::storage_header(input);
+        match &r {
+            Ok((rest, Some((sh, shifted)))) => {
+                assert!(*shifted as usize == j.len(), "bytes skipped in front of the storage header are not the junk length");
+                assert!(rest.len() == 2 && rest.as_ptr() as usize == input.as_ptr() as usize + j.len() + 16, "remainder does not start behind the storage header");
+                assert!(sh.timestamp.seconds == 0x55332211 && sh.timestamp.microseconds == 0x08070605, "storage header fields are not those behind the junk");
+                assert!(sh.ecu_id.as_bytes() == b"Ec7");
+            }
+            _ => assert!(false, "storage header behind junk not found"),
+        }
+        std::mem::forget(r);
+        k += 1;
+    }
+    kani::cover!(true);
+}
+
 // ---- parsing with junk in front of the storage header -------------------------
 use crate::c01::*;
 use crate::refcodec::*;
